@@ -185,3 +185,34 @@ Proof.
       try (intros old H; vm_compute in H; discriminate).
   - repeat split; try (apply (bool_decide_unpack _); vm_compute; exact I); vm_compute; reflexivity.
 Qed.
+
+(* ---------- third audit (E22): the batch walk that stops at the first pre-bind failure ---------- *)
+
+Definition pod_n (i : positive) : pod := mkPod i (Some 2%positive) None PPending false 1 0 false (mk_req 500 1048576 0).
+Definition batch_state : cache := run eps0 empty_cache [ENode node1; EPG pg2; EPod (pod_n 1); EPod (pod_n 2); EPod (pod_n 3)].
+(* three contexts: the pre-binder of the first fails, the second is bound, the binder refuses the third *)
+Definition batch_ctxs : list (positive * positive * positive * Z) :=
+  [(2%positive, 1%positive, 1%positive, 2); (2%positive, 2%positive, 1%positive, 1); (2%positive, 3%positive, 1%positive, 0)].
+
+(* the walk with `break` (seed C01-r7-1) satisfies the seventh round's statement
+   (bind_batch_break_same_but_errq) but not the queue clause of bind_batch_errq: the failed bind of
+   the third context is queued by the history of single binds and by bind_batch, not by it *)
+Theorem bind_batch_break_refuted :
+  exists c l, faults_ok l /\
+    snd (bind_batch_break eps0 c l) = [RDone; RDone; RDone] /\
+    exists k, k ∈ c_errq (run eps0 c (batch_events l)) /\ k ∈ c_errq (fst (bind_batch eps0 c l)) /\
+              k ∉ c_errq (fst (bind_batch_break eps0 c l)).
+Proof.
+  exists batch_state, batch_ctxs. split; [repeat constructor; simpl; lia|]. split; [vm_compute; reflexivity|].
+  exists (2%positive, 3%positive).
+  assert (E1 : c_errq (run eps0 batch_state (batch_events batch_ctxs)) = [(2%positive, 1%positive); (2%positive, 3%positive)]) by (vm_compute; reflexivity).
+  assert (E2 : c_errq (fst (bind_batch eps0 batch_state batch_ctxs)) = [(2%positive, 1%positive); (2%positive, 3%positive)]) by (vm_compute; reflexivity).
+  assert (E3 : c_errq (fst (bind_batch_break eps0 batch_state batch_ctxs)) = [(2%positive, 1%positive)]) by (vm_compute; reflexivity).
+  rewrite E1, E2, E3. split; [set_solver|]. split; [set_solver|]. intros H. apply elem_of_list_singleton in H. discriminate.
+Qed.
+
+(* non-vacuity of bind_batch_errq / bind_batch_law105: the queue clause has members *)
+Example batch_failed_keys :
+  failed_keys batch_ctxs (snd (bind_batch eps0 batch_state batch_ctxs)) = [(2%positive, 1%positive); (2%positive, 3%positive)].
+Proof. vm_compute. reflexivity. Qed.
+
